@@ -4,3 +4,6 @@ pub use crate::comms::verif_hooks_reconfunits::*;
 pub use crate::targets::verif_hooks_reconfunits::null_target;
 pub use crate::units::verif_filter_reconfunits as filter;
 pub use crate::manager::verif_hooks_reconfunits::component_with_http;
+pub use crate::manager::verif_hooks_reconfunits::component_with_http_and_tracer;
+pub use crate::units::bmp_tcp_in::unit::verif_hooks_reconfunits as bmp;
+pub use crate::tracing::Tracer;
